@@ -393,6 +393,9 @@ class StoreBasedCollection:
         except NoSuchItem:
             # TODO: Properly allow removing subcollections
             # self.get_subcollection(name).destroy()
+            if name not in self.store.subdirectories():
+                # Never hand an arbitrary name (e.g. "..") to rmtree().
+                raise KeyError(name)
             shutil.rmtree(os.path.join(self.store.path, name))
 
     async def create_member(
